@@ -279,4 +279,3 @@ func ZZVerifC14() {
 	r.Extra("bounds", map[string]any{"max_len": maxLen, "pieces": len(gen), "stop_sets": len(stops), "limits": limits})
 	r.Finish()
 }
-
